@@ -8,7 +8,7 @@
 #define UF2(name) \
   double __CPROVER_uninterpreted_##name(double, double); \
   double name(double x, double y) { return __CPROVER_uninterpreted_##name(x, y); }
-UF1(sqrt) UF1(exp) UF1(log) UF1(sin) UF1(cos) UF1(tan)
+UF1(sqrt) UF1(sin) UF1(cos) UF1(tan)
 UF1(asin) UF1(acos) UF1(atan) UF1(sinh) UF1(cosh) UF1(tanh)
 UF1(asinh) UF1(acosh) UF1(atanh) UF1(log1p) UF1(expm1)
 UF1(log2) UF1(log10) UF1(exp2) UF1(cbrt)
@@ -21,3 +21,24 @@ double __powidf2(double x, int n) { return __CPROVER_uninterpreted_powi(x, n); }
 double __CPROVER_uninterpreted_fma(double, double, double);
 double fma(double x, double y, double z) { return __CPROVER_uninterpreted_fma(x, y, z); }
 
+
+/* exp / log with optional range obligations (path-sensitive, switched on per harness through VH_RANGE_CHECKS):
+ *   exp(x): x <= 709.78 (otherwise the IEEE result overflows to +inf); for x < -745.13 the IEEE result is 0,
+ *           which is modelled exactly so that a later logarithm sees the underflow;
+ *   log(x): x > 0 (a non-positive argument here means every exponential in a log-sum-exp underflowed). */
+int VH_RANGE_CHECKS = 0;
+double __CPROVER_uninterpreted_exp(double);
+double __CPROVER_uninterpreted_log(double);
+double exp(double x)
+{
+  if (VH_RANGE_CHECKS) {
+    __CPROVER_assert(x <= 709.78, "exp argument within the finite range");
+    if (x < -745.13) return 0.0;
+  }
+  return __CPROVER_uninterpreted_exp(x);
+}
+double log(double x)
+{
+  if (VH_RANGE_CHECKS) __CPROVER_assert(x > 0.0, "log argument positive (no underflow of a sum of exponentials)");
+  return __CPROVER_uninterpreted_log(x);
+}
